@@ -127,6 +127,8 @@ def ctx_scaffolds(tier: str):
             out.append({"name": f"{name}-{sname}", "scaffold": [prefix, H("a"), H("b")] + ([suffix] if suffix else []),
                         "cfgs": cfgs, "mode": "block", "spec": _spec_for(name), "weight": 4})
     for name, sc in INLINE_CTX:
+        if tier == "quick" and name in ("autolink-mail",):
+            continue  # ~9 CPU-s per path (e-mail regex on a symbolic string): thorough only
         cfgs = [JS] if tier == "quick" else [JS, CM]
         if tier == "thorough" and name in ("link-text", "emph"):
             cfgs = cfgs + leave_one_out_inline()
